@@ -179,6 +179,58 @@ def case_untouched(kind, rows, dims, B):
     return Case(name, body, replay, time_budget=300, split=3 if (rows >= 3 and kind in ("cors", "rf", "gp-ei", "xgb", "bestbatch")) else 0, solver_timeout_ms=8000)
 
 
+NONFINITE = [float("inf"), float("-inf"), float("nan")]
+
+
+def case_untouched_nonfinite(kind, rows, dims, B):
+    """No-write clause on histories holding a non-finite loss (a diverged simulation): which row and which of +inf / -inf / NaN are
+    symbolic integers (concretised by forking); the other losses are concrete, so this dimension is enumerated, not symbolic.
+    A sampler (or its estimator, by contract) may refuse such a history with ValueError - but must not have written into it."""
+    name = f"untouched-nonfinite-{kind}-r{rows}-d{dims}-B{B}"
+
+    def setup(row, which):
+        pts = np.array([[LO + (HI - LO) * ((2 * r + d + 1) % 5) / 4 for d in range(dims)] for r in range(rows)], dtype=float)
+        losses = np.array([1.5 - 0.25 * r for r in range(rows)], dtype=float)
+        losses[row] = NONFINITE[which]
+        return pts, losses
+
+    def run(s, space, pts, losses):
+        refused = None
+        try:
+            with warnings.catch_warnings():
+                warnings.simplefilter("ignore")
+                s.sample(space, pts, losses)
+        except ValueError as e:
+            refused = str(e)[:80]
+        return refused
+
+    def body(ctx):
+        row, which = int(ctx.int("row", 0, rows - 1)), int(ctx.int("which", 0, 2))
+        with sampler_world(rng=None):
+            space = _space(dims, lo=LO, hi=HI)
+            pts, losses = setup(row, which)
+            log = []
+            tp, tl = Tracked(pts, log), Tracked(losses, log)
+            p0, l0 = pts.copy(), losses.copy()
+            refused = run(_mk(kind, B), space, tp, tl)
+            ctx.prove(z3.BoolVal(not log), "history_untouched", f"{kind}: writes into a history with loss[{row}]={NONFINITE[which]}: {log[:3]} (sampler {'refused: ' + refused if refused else 'returned'})")
+            ctx.prove(z3.BoolVal(np.array_equal(pts, p0) and np.array_equal(losses, l0, equal_nan=True)), "history_untouched", f"{kind}: history cells identical afterwards")
+            ctx.sample({"case": name, "row": row, "loss": repr(NONFINITE[which]), "refused": refused})
+
+    def replay(cex):
+        row, which = int(cex.values.get("row") or 0), int(cex.values.get("which") or 0)
+        pts, losses = setup(row, which)
+        p0, l0 = pts.copy(), losses.copy()
+        try:
+            refused = run(_real_sampler(kind, B), _space(dims, lo=LO, hi=HI), pts, losses)
+        except Exception as e:  # noqa: BLE001
+            refused = f"{type(e).__name__}: {e}"[:80]
+        bad = not (np.array_equal(pts, p0) and np.array_equal(losses, l0, equal_nan=True))
+        return bad, f"{kind}: history losses {l0.tolist()} -> {losses.tolist()} (points changed={not np.array_equal(pts, p0)}; sampler {'refused: ' + str(refused) if refused else 'returned'})"
+
+    return Case(name, body, replay, witness_paths=0)
+
+
 def _real_sampler(kind, B):
     if kind == "xgb":
         return XGBoostSampler(B, random_state=1, candidate_pool_size=8, max_deduplication_passes=0, n_estimators=2)
@@ -410,6 +462,9 @@ def cases(tier, seed):
     for k in kinds:
         rows = 2 if k in ("gp-ei", "rf", "cors") else 3
         cs.append(case_untouched(k, rows, 1 if k in ("cors", "gp-ei", "bestbatch") else 2, 1 if k in ("gp-ei", "cors", "rf") else 2))
+    # histories with a non-finite loss (enumerated dimension; samplers whose handling of the losses the harness can execute concretely)
+    for k in ("gp-mean", "gp-ei", "xgb", "bestbatch", "pso-global"):
+        cs.append(case_untouched_nonfinite(k, 3, 2, 2))
     cs.append(case_surrogate(3, 1, 2, 1))
     cs.append(case_surrogate(3, 2, 2, 2))
     cs.append(case_bestbatch(1, 1, 2, 3))
@@ -429,5 +484,5 @@ def cases(tier, seed):
 MANIFEST = {
     "category": "other",
     "text": "Symbolic execution of every built-in sampler's real sample() on a write-tracked history with symbolic losses (all loss orderings, float32-overflow regions included): no write and identical cells afterwards; the real MLSurrogateSampler.sample_batch with a stub surrogate returning free predictions: fit received the history and for every prediction ordering the returned rows are the batch_size lowest; BestBatchSampler: on every path each proposal is proved to be a best point displaced by 1..range-1 precision steps on >= 1 coordinate and clipped.",
-    "note": "Learners/optimiser/betabinom/erfc are contract stubs; grid-aligned search space (bounds [2,10] for the no-write clause, unit cube elsewhere); history <= 3 rows (quick); integer index arrays from the generator are concretised (all values explored).",
+    "note": "Learners/optimiser/betabinom/erfc are contract stubs (estimators refuse non-finite targets with ValueError); the non-finite-loss histories are an enumerated dimension (row x {+inf,-inf,NaN}) with concrete values; grid-aligned search space (bounds [2,10] for the no-write clause, unit cube elsewhere); history <= 3 rows (quick); integer index arrays from the generator are concretised (all values explored).",
 }
